@@ -4,3 +4,9 @@ chk('C13', 'exploration',
     'equality of two languages over a finite domain is decided completely, beyond the bound nothing is claimed.',
     'Trusted: vlib/ref_values.py (stdlib calendar) as the definition of the value languages; data types B/unknown are out of scope.',
     'reference-model monitor over an exhaustively enumerated bounded domain', 'DESIGN.md 5 C13')
+chk('C17', 'exploration',
+    'Run-time comparison of X12Path parse/print/re-parse with paths built from known parts (grid of ~130k paths, exhaustive over the grid) and with an '
+    'independent hand-written parser on the printed path of every node of every shipped map; Segment.set/get histories compared position by position '
+    'with a list-of-lists model. Held on the executions produced; the grid and history bounds are the limit of the claim.',
+    'Trusted: the constructive path generator, hand_parse() and the list model in checks/c17.py.',
+    'reference-model monitor (constructive grid + model-based set/get histories)', 'DESIGN.md 5 C17')
